@@ -31,4 +31,5 @@ def run(rep, fb, tier):
     _l2.rule_byteswap_width(rep, fb)
     from ..rules import lints3 as _l3
     _l3.rule_forth_source_literals(rep, fb)
+    _l3.rule_forth_parse_depth(rep, fb)
     rep.units = fb.units
